@@ -203,6 +203,19 @@ def generate(rng, tier, ctx):
     if o_inf[0] == '1': V(verify_line(bytes.fromhex(o_inf[1]), adv_inf), 'ring-key-infinity')
     o = ctx.model([sign_line(canc, 0)])[0].split(' ')
     mutations(rng, canc, bytes.fromhex(o[1]), cases, 1)
+    # forgery from public data only: the key list is chosen so that ring key j is the point at infinity (online_j = -H(Q)Q with
+    # Q = offline_j + W), whose discrete logarithm 0 everybody knows; the ring closes with secret 0, verification must refuse
+    # (the infinity test of secp256k1_borromean_verify) - at every position j of the ring, not only the first
+    forged = []
+    for n_, j_ in [(1, 0), (2, 0), (2, 1), (3, 1), (3, 2), (5, 3), (8, 7)] + ([(16, 9)] if tier != 'quick' else []):
+        I = Inst(rng, n_)
+        t = hash_tweak(pmul(I.summed(j_), G)); I.on_sec[j_] = (-I.summed(j_) * t) % N; I.on[j_] = pmul(I.on_sec[j_], G)
+        forged.append((I, j_, 'wl_mk_advsec %s %d %s %s / %s %s' % (h32(0), j_, pt(I.sub), h32(rng.seckey()),
+                                                                  ' '.join(h32(rng.seckey()) for _ in range(n_)), keys_str(I.on, I.off))))
+    for (I, j_, _), o in zip(forged, ctx.model([f[2] for f in forged])):
+        t = o.split(' ')
+        assert t[0] == '1', o
+        V(verify_line(bytes.fromhex(t[1]), I), 'forged-ring-key-infinity-at-%s' % ('0' if j_ == 0 else 'j>0'))
 
     # adversarial signer: chosen forged scalars (small, so that s + N fits in 32 bytes; and zero)
     advs = []
@@ -263,6 +276,9 @@ def generate(rng, tier, ctx):
         Pp(bytes([c]) + body[:-1], 'len-1'); Pp(bytes([c]) + body + b'\x00', 'len+1')
         Pp(bytes([c]) + body[:-32], 'len-32'); Pp(bytes([c]) + body + rng.bytes(32), 'len+32')
         Pp(bytes([c]), 'count-only')
+        # the length argument is a size_t: lengths that equal the exact one only modulo 2^32 / 2^16 / 2^8 must be refused
+        for d, cls in ((0, 'claimed-exact'), (1 << 32, 'claimed+2^32'), (3 << 32, 'claimed+3*2^32'), (1 << 63, 'claimed+2^63'), (1 << 16, 'claimed+2^16'), (1 << 8, 'claimed+2^8')):
+            if c < 10 or d in (0, 1 << 32): cases.append(('wl_parse_len %s %d' % (hx(bytes([c]) + body), exact + d), ('wl_parse', cls)))
     for c in range(256):
         Pp(bytes([c]) + sig2[1:], 'count-byte-sweep')
     Pp(sigbig, 'honest-n255'); Pp(sigbig + b'\0' * 32, 'n255-len+32')
